@@ -2,7 +2,8 @@
 
 Design language (interpreted with the real API by interp.py; described statically by analysis.py):
 
-  design  = {"inputs": {id: width}, "methods": [mdecl], "groups": [gdecl], "modules": [{"name", "block"}],
+  design  = {"inputs": {id: width}, "methods": [mdecl], "groups": [gdecl],
+             "modules": [{"name", "block", "subclass": 0|1 (built from a trivial subclass of TModule)}],
              "relations": [rel], "tag": str, "seed": int, "vseed": int, "inject": kind|None}
   mdecl   = {"ref", "iw", "ow", "owner": module index | None, "group": [gname, index] | None}
   gdecl   = {"name", "count", "iw", "ow", "owner"}                          (a `Methods` object)
@@ -62,7 +63,8 @@ INJECT_KINDS = ["doubleCall", "cycle", "unsatPriority", "singleCaller", "readyDe
                 "sameTransMixed", "aliasDouble", "nonexclTwice"]
 # the reject kind an injected defect is expected to be classified as (analysis.classify decides)
 EXPECT_KIND = {"sameTransMixed": "sameTransConflict", "aliasDouble": "doubleCall", "nonexclTwice": "doubleCall"}
-ACCEPT_KINDS = ["alts_if", "alts_switch", "alts_fsm", "nonexcl_multi", "same_trans_excl", "alias_alts", "nonexcl_alts"]
+ACCEPT_KINDS = ["alts_if", "alts_switch", "alts_fsm", "nonexcl_multi", "same_trans_excl", "alias_alts", "nonexcl_alts",
+                "cross_module"]
 
 
 def _rint(rng, lohi):
@@ -439,7 +441,7 @@ class Gen:
                 else:
                     block.append(bodies[tops[i]])
                     i += 1
-            self.modules.append({"name": f"mod{mi}", "block": block})
+            self.modules.append({"name": f"mod{mi}", "block": block, "subclass": int(rng.random() < 0.35)})
         for ps in self.provide_stmts:
             blk = self.modules[rng.randrange(nmod)]["block"]
             blk.insert(rng.randrange(len(blk) + 1), ps)
@@ -791,7 +793,37 @@ def nonexcl_twice_family(d: dict, rng: random.Random, P, must_reject: bool):
     _fresh_trans(d, rng, "w")["block"].append(_call(d, rng.choice([n, e]), rng))
 
 
-_FAMILIES = {"sameTransMixed": same_trans_family, "aliasDouble": alias_family, "nonexclTwice": nonexcl_twice_family,
+def cross_module_family(d: dict, rng: random.Random, P, must_reject: bool = False):
+    """(accept family) Two fresh modules built one right after the other, one from a TModule subclass and one
+    from plain TModule, with structurally identical control positions: a transaction of the first calls an
+    exclusive method under `If`, a transaction of the second under `Else` (or the transactions themselves
+    are defined under If / Else and related by add_conflict).  Different modules: nothing is exclusive, the
+    transactions conflict."""
+    g = _helper_gen(d, rng, P)
+    x = _fresh_leaf(d, rng, "v", iw=rng.choice([0, 2]))
+    sub = rng.random() < 0.5
+    names = []
+    variant_def = rng.random() < 0.4  # same variant for both modules
+    for k in range(2):
+        t = {"k": "trans", "name": f"tv{len(d['modules'])}", "ready": _new_input(d, 1, "r"), "block": []}
+        names.append(t["name"])
+        call = _call(d, x if (not variant_def or rng.random() < 0.5) else _fresh_leaf(d, rng, "v"), rng)
+        if variant_def:
+            # the transaction itself is defined under If (first module) / Else (second module)
+            t["block"].append(call)
+            alts = [{"cond": _new_input(d, 1, "c"), "block": [t] if k == 0 else []}, {"cond": None, "block": [t] if k == 1 else []}]
+            top = {"k": "if", "uid": g.uid(), "alts": alts}
+        else:
+            alts = [{"cond": _new_input(d, 1, "c"), "block": [call] if k == 0 else []}, {"cond": None, "block": [call] if k == 1 else []}]
+            t["block"].append({"k": "if", "uid": g.uid(), "alts": alts})
+            top = t
+        d["modules"].append({"name": f"modv{len(d['modules'])}", "block": [top], "subclass": int(sub if k == 0 else not sub)})
+    if variant_def or rng.random() < 0.5:
+        a, b = names if rng.random() < 0.5 else names[::-1]
+        d["relations"].append({"k": "conflict", "a": a, "b": b, "prio": rng.choice(["U", "L", "R"])})
+
+
+_FAMILIES = {"cross_module": cross_module_family, "sameTransMixed": same_trans_family, "aliasDouble": alias_family, "nonexclTwice": nonexcl_twice_family,
              "same_trans_excl": same_trans_family, "alias_alts": alias_family, "nonexcl_alts": nonexcl_twice_family}
 
 
